@@ -1,5 +1,6 @@
 import BarterModel.Lemmas.Orders
 import BarterModel.Lemmas.Review1
+import BarterModel.Lemmas.KernelsAgree.OrdersSM
 /-!
 # C01 — Active-order tracking follows the documented order lifecycle
 
@@ -423,5 +424,22 @@ example : stateOf (run [] ([EpisodeEv.report ⟨7, 5, 0⟩, .cancelSent, .cancel
 example : stateOf (step (run [] ([EpisodeEv.report ⟨7, 5, 0⟩, .cancelSent, .cancelFailed, .report ⟨7, 3, 0⟩,
     .cancelSent].map (EpisodeEv.toOp 1 10 100))) (.cancelResp 1 false)) 1 = some (.opn ⟨7, 5, 0⟩) := by
   decide +kernel
+
+/-- **Translator tie (map machine): the order-table model IS the current source.** `Orders::{update_from_order_snapshot,
+update_from_cancel_response, record_in_flight_cancel, record_in_flight_open}` with `Order::to_active`,
+`Order::from(&OrderRequestOpen)`, `ActiveOrderState::open_meta`, `Open::quantity_remaining` and the structs / enums they
+work on are regenerated from `barter/src/engine/state/order/mod.rs` and `barter-execution/src/order/{mod,state,request}.rs`
+by `tools/rust2lean_sm.py` on every run (`Generated/Machines3.lean`, group `orders`); the `FnvHashMap` and its Entry API are
+read through the translator's explicit map vocabulary (an association list with `get` / `insert` / `remove`, proved to be
+a finite map in `Lemmas/KernelsAgree/MapVocab.lean`). For ALL order tables, snapshots, cancel responses and requests and all
+instrument / asset key types: each generated function, read through the abstraction `ofOrders` (the same association list
+with the static order fields forgotten), is the model function the theorems of this file are about (`updateFromSnapshot`,
+`updateFromCancelResponse`, `recordInFlightCancel`, `recordInFlightOpen`), every run of the generated functions is the
+model's `run`, the generated `default` is the empty table, and every model table / op is the image of a generated one
+(`toMap`, `ofOpSection`). No invariant of the map is needed and no inequivalence was found. The statement is that of
+`KernelsAgree.OrdersSM.orders_sm_agree` (Lemmas/KernelsAgree/OrdersSM.lean). -/
+theorem map_machine_agrees_with_source (A I : Type) [DecidableEq A] [DecidableEq I] :
+    type_of% (@BarterModel.KernelsAgree.OrdersSM.orders_sm_agree A I _ _) :=
+  BarterModel.KernelsAgree.OrdersSM.orders_sm_agree
 
 end BarterModel.Props.C01
